@@ -16,7 +16,7 @@ var update = flag.Bool("update", false, "rewrite testdata/golden.txt from the cu
 // every construct of the subset, translated from testdata/src/sample/sample.go
 var okSelectors = []string{
 	"ifElse", "taggedSwitch", "taglessSwitch", "lets", "bitops", "convs", "shadow",
-	"loopCond", "loop3", "loopBreakContinue",
+	"loopCond", "loop3", "loopBreakContinue", "nestedLoops", "twoLoops",
 	"(*box).atoms", "flag.has", "check", "split", "pair", "intrinsics",
 	"(*box).big:if#2", "(*box).big:oneHop", "(*box).big:if@oneHop", "(*box).big:if@max",
 	"(*box).big:if@HasRole", "(*box).big:field#th", "(*box).big:field#cnt",
@@ -227,20 +227,29 @@ func TestCoqCompiles(t *testing.T) {
 	if _, err := os.Stat(filepath.Join(theories, "lib", "GoInt.vo")); err != nil {
 		t.Skip("lib/GoInt.vo not built")
 	}
-	tmp := t.TempDir()
+	// one coqc run: each kernel in its own Module, the common preamble once
+	const preamble = "From Goloop Require Import lib.GoInt.\nFrom Coq Require Import ZArith Bool String List.\nImport ListNotations.\nLocal Open Scope Z_scope.\nLocal Open Scope bool_scope.\n"
+	var all strings.Builder
+	all.WriteString(preamble)
+	p := loadPackage("testdata/src", "sample")
 	for i, sel := range okSelectors {
-		p := loadPackage("testdata/src", "sample")
 		name := fmt.Sprintf("t%d", i)
 		code, err := translateKernel(p, kernelSpec{Dir: "sample", Sel: sel, Name: name})
 		if err != nil {
 			t.Errorf("%s: %v", sel, err)
 			continue
 		}
-		f := filepath.Join(tmp, "K_"+name+".v")
-		os.WriteFile(f, []byte(code), 0o644)
-		cmd := exec.Command("timeout", "120", coqc, "-Q", theories, "Goloop", "-Q", tmp, "Goloop.gen", f)
-		if out, err := cmd.CombinedOutput(); err != nil {
-			t.Errorf("%s: coqc rejects the generated file: %v\n%s\n%s", sel, err, out, code)
+		j := strings.Index(code, preamble)
+		if j < 0 {
+			t.Fatalf("%s: preamble not found in generated file", sel)
 		}
+		fmt.Fprintf(&all, "Module M%d.\n%s%s\nEnd M%d.\n", i, code[:j], code[j+len(preamble):], i)
+	}
+	tmp := t.TempDir()
+	f := filepath.Join(tmp, "All.v")
+	os.WriteFile(f, []byte(all.String()), 0o644)
+	cmd := exec.Command("timeout", "300", coqc, "-Q", theories, "Goloop", f)
+	if out, err := cmd.CombinedOutput(); err != nil {
+		t.Errorf("coqc rejects the generated definitions: %v\n%s", err, out)
 	}
 }
